@@ -347,7 +347,7 @@ def nontrivial(c): return c["kind"] == "dest" or len(c["desc"]["objects"]) >= 1
 # ------------------------------------------------------------------ generators
 def gen_cases(rng, tier):
     cases = []
-    n_exp, n_re = {"quick": (60, 50), "thorough": (1000, 800), "search": (150, 100)}[tier]
+    n_exp, n_re = {"quick": (60, 50), "thorough": (800, 600), "search": (150, 100)}[tier]
     for i in range(n_exp):
         desc = odgen.gen_desc(rng, "built", rng.choice(["small", "normal", "normal", "large"] if i % 10 else ["large"]))
         if i % 7 == 0:                                 # neither node id nor bit rate
@@ -365,7 +365,7 @@ def gen_cases(rng, tier):
         cases.append(dict(kind="reexp", desc=desc, style=rng.randrange(3), nid=nid, doc_type=doc_type, nid2=nid2))
     # histories: export, change the dictionary, export again (both document types), import
     g = odgen.Gen(rng, "built")
-    for i in range({"quick": 40, "thorough": 500, "search": 80}[tier]):
+    for i in range({"quick": 40, "thorough": 400, "search": 80}[tier]):
         desc = g.desc(rng.choice(["small", "normal"]))
         vs = []
         for o in desc["objects"]:
